@@ -2,9 +2,9 @@
    keeps every channel intact and ordered.
    Statements only: each theorem is closed by [exact] of a lemma of Proofs/P_split.v / Proofs/P_multi_ssi.v. *)
 From Coq Require Import List Arith Lia Ring ZArith QArith Qcanon Permutation Bool.
-From PyOMA.Base Require Import Carrier FMat Show.
+From PyOMA.Base Require Import Carrier FMat Show EigCount.
 From PyOMA.Model Require Import M_split M_multi_ssi.
-From PyOMA.Proofs Require Import P_split P_multi_ssi.
+From PyOMA.Proofs Require Import P_split P_multi_ssi P_eigcount_c03.
 Import ListNotations.
 
 (* ================= the reference / roving split (gen.pre_multisetup), any element type ================= *)
@@ -182,14 +182,93 @@ Theorem C03_obs_all_l_entry : forall br n_ref nmov n (ObsL Ll:list (list (list R
 Proof. exact (ms_obs_all_l_entry R K). Qed.
 End MS.
 
-(* What is NOT proved (asserts nothing): the modal level of the property.  For a field, every eigen-decomposition
-   (Psi, Lam) the eig kernel may return for A_hat is, up to a permutation sigma of the poles, an eigen-decomposition of the
-   global A (the same eigenvalue multiset, hence the same natural frequencies and damping ratios through ac2mp), and
-   every column of C_hat Psi is a non-zero multiple of the matching global mode shape (MAC 1, independent of the T k);
-   and the same with ordmax > n, every per-setup matrix zero-padded to [O_k T_k, 0] (pinv [X,0] = [X^+;0]).
-   Needs "an n x n matrix has at most n eigenvalues" (multiplicity), the transcendental map of ac2mp, and the
-   single-setup realisation step that delivers the hypothesis on obs k. *)
 Definition fdiag {R} (K:Ops R) (d:nat -> R) : fmat R := fun i j => if Nat.eqb i j then d i else o0 K.
+
+(* ================= the modal level: multiplicity and mode shapes =================
+   Carrier: commutative ring without zero divisors, 1 <> 0, decidable equality (every field with decidable equality; for
+   complex poles instantiate at the complexified carrier, EigCount.cplx_integral).  Global system with a complete modal
+   basis: A Phi = Phi diag(lamg), Phi two-sided invertible, lamg pairwise different.  Eigen-solver contract on the identified
+   A_hat: A_hat Psi = Psi diag(lam), Psii Psi = I.  Then there is a BIJECTION sigma of the n poles with
+   lam_j = lamg_(sigma j) - so [lam_0 ..] is a Permutation of [lamg_0 ..]: every global pole exactly once, nothing else -
+   and column j of C_hat Psi is a non-zero multiple of the global mode shape C_global Phi[:, sigma j] (sensor order:
+   references, roving_0, roving_1, ...), whatever the per-setup bases / gains T k. *)
+Section MM.
+Variable R:Type. Variable K:Ops R.
+Hypothesis Rth : ring_theory (o0 K) (o1 K) (oadd K) (omul K) (osub K) (oopp K) (@eq R).
+Hypothesis Hint : forall a b:R, omul K a b = o0 K -> a = o0 K \/ b = o0 K.
+Hypothesis H10 : o1 K <> o0 K.
+Hypothesis Rdec : forall x y:R, {x = y} + {x <> y}.
+
+Theorem C03_multiplicity :
+  forall br n_ref nmov n (obs L:nat -> fmat R) (Cr A:fmat R) (Cm T Ti:nat -> fmat R),
+  (forall k, (k < length nmov)%nat ->
+     feq (S br * (n_ref + nth k nmov 0%nat)) n (obs k)
+         (fmul K n (obsv K n (n_ref + nth k nmov 0%nat) (stack n_ref Cr (Cm k)) A) (T k))) ->
+  (forall k, (k < length nmov)%nat -> feq n n (fmul K n (T k) (Ti k)) (fid K)) ->
+  feq n n (fmul K n (Ti 0%nat) (T 0%nat)) (fid K) ->
+  (forall k, (k < length nmov)%nat -> feq n n (fmul K (br * n_ref) (L k) (O_ref br n_ref nmov obs k)) (fid K)) ->
+  (0 < length nmov)%nat -> (1 <= br)%nat -> (0 < n_ref)%nat ->
+  forall (Phi Phii Psi Psii:fmat R) (lamg lam:nat -> R),
+  feq n n (fmul K n A Phi) (fmul K n Phi (fdiag K lamg)) ->
+  feq n n (fmul K n Phi Phii) (fid K) -> feq n n (fmul K n Phii Phi) (fid K) ->
+  (forall i j, (i < n)%nat -> (j < n)%nat -> i <> j -> lamg i <> lamg j) ->
+  feq n n (fmul K n Psii Psi) (fid K) ->
+  forall Q Rq Ri:fmat R,
+  feq ((br - 1) * nDOF n_ref nmov) n (obs_all K br n_ref nmov n obs L) (fmul K n Q Rq) ->
+  feq n n (fmul K ((br - 1) * nDOF n_ref nmov) (ftr Q) Q) (fid K) ->
+  feq n n (fmul K n Ri Rq) (fid K) ->
+  feq n n (fmul K n (A_hat K br n_ref nmov n obs L Q Ri) Psi) (fmul K n Psi (fdiag K lam)) ->
+  (exists sigma : nat -> nat,
+    (forall j, (j < n)%nat -> (sigma j < n)%nat) /\
+    (forall i j, (i < n)%nat -> (j < n)%nat -> sigma i = sigma j -> i = j) /\
+    (forall i, (i < n)%nat -> exists j, (j < n)%nat /\ sigma j = i) /\
+    (forall j, (j < n)%nat -> lam j = lamg (sigma j)) /\
+    (forall j, (j < n)%nat -> exists c:R, c <> o0 K /\
+       forall i, (i < nDOF n_ref nmov)%nat ->
+         fmul K n (C_hat K br n_ref nmov n obs L) Psi i j
+         = omul K c (fmul K n (C_global K n_ref nmov Cr Cm) Phi i (sigma j)))) /\
+  Permutation (tab n lam) (tab n lamg).
+Proof. exact (ms_modal_qr R K Rth Hint H10 Rdec). Qed.
+
+(* the same for the state matrix obtained from ANY left inverse of O_p (the routine the correspondence check executes) *)
+Theorem C03_multiplicity_linv :
+  forall br n_ref nmov n (obs L:nat -> fmat R) (Cr A:fmat R) (Cm T Ti:nat -> fmat R),
+  (forall k, (k < length nmov)%nat ->
+     feq (S br * (n_ref + nth k nmov 0%nat)) n (obs k)
+         (fmul K n (obsv K n (n_ref + nth k nmov 0%nat) (stack n_ref Cr (Cm k)) A) (T k))) ->
+  (forall k, (k < length nmov)%nat -> feq n n (fmul K n (T k) (Ti k)) (fid K)) ->
+  feq n n (fmul K n (Ti 0%nat) (T 0%nat)) (fid K) ->
+  (forall k, (k < length nmov)%nat -> feq n n (fmul K (br * n_ref) (L k) (O_ref br n_ref nmov obs k)) (fid K)) ->
+  (0 < length nmov)%nat -> (1 <= br)%nat -> (0 < n_ref)%nat ->
+  forall (Phi Phii Psi Psii:fmat R) (lamg lam:nat -> R),
+  feq n n (fmul K n A Phi) (fmul K n Phi (fdiag K lamg)) ->
+  feq n n (fmul K n Phi Phii) (fid K) -> feq n n (fmul K n Phii Phi) (fid K) ->
+  (forall i j, (i < n)%nat -> (j < n)%nat -> i <> j -> lamg i <> lamg j) ->
+  feq n n (fmul K n Psii Psi) (fid K) ->
+  forall Lp:fmat R,
+  feq n n (fmul K ((br - 1) * nDOF n_ref nmov) Lp (obs_all K br n_ref nmov n obs L)) (fid K) ->
+  feq n n (fmul K n (A_of_linv K br n_ref nmov n obs L Lp) Psi) (fmul K n Psi (fdiag K lam)) ->
+  (exists sigma : nat -> nat,
+    (forall j, (j < n)%nat -> (sigma j < n)%nat) /\
+    (forall i j, (i < n)%nat -> (j < n)%nat -> sigma i = sigma j -> i = j) /\
+    (forall i, (i < n)%nat -> exists j, (j < n)%nat /\ sigma j = i) /\
+    (forall j, (j < n)%nat -> lam j = lamg (sigma j)) /\
+    (forall j, (j < n)%nat -> exists c:R, c <> o0 K /\
+       forall i, (i < nDOF n_ref nmov)%nat ->
+         fmul K n (C_hat K br n_ref nmov n obs L) Psi i j
+         = omul K c (fmul K n (C_global K n_ref nmov Cr Cm) Phi i (sigma j)))) /\
+  Permutation (tab n lam) (tab n lamg).
+Proof. exact (ms_modal_linv R K Rth Hint H10 Rdec). Qed.
+End MM.
+
+(* What is NOT proved (asserts nothing).  The statement below is the modal level WITHOUT the three extra hypotheses of
+   C03_multiplicity: (a) decidable equality on the carrier (needed to pick a non-zero coordinate of an eigenvector; holds
+   at Qc and, classically, at the reals and their complexifications - with it, field_theory gives "no zero divisors" and
+   1 <> 0 by EigCount.field_integral / field_one_neq_zero); (b) Ti 0 . T 0 = I (only the right inverses T k . Ti k = I are
+   assumed here; for square matrices one implies the other, which is dimension theory); Psi is given two-sided invertible
+   here, C03_multiplicity needs the left inverse only.  Also not proved: the same with ordmax > n, every per-setup matrix
+   zero-padded to [O_k T_k, 0] (pinv [X,0] = [X^+;0]); the transcendental map of ac2mp (proved for C01 at the reals);
+   and the single-setup realisation step that delivers the hypothesis on obs k (C01). *)
 Definition C03_full_statement : Prop :=
   forall (R:Type) (K:Ops R),
   field_theory (o0 K) (o1 K) (oadd K) (omul K) (osub K) (oopp K) (odiv K) (oinv K) (@eq R) ->
@@ -236,6 +315,8 @@ Print Assumptions C03_A_similar_linv.
 Print Assumptions C03_eigpair_transport.
 Print Assumptions C03_eigpair_transport_back.
 Print Assumptions C03_obs_all_l_entry.
+Print Assumptions C03_multiplicity.
+Print Assumptions C03_multiplicity_linv.
 
 (* non-vacuity 1: the split on a 3-sample, 4-channel dataset with references listed as [2;0], and its error cases *)
 Example C03_example_split :
@@ -304,3 +385,23 @@ Example C03_example_integer_run :
   | None => False
   end.
 Proof. vm_compute. repeat split; reflexivity. Qed.
+
+(* non-vacuity 4: the hypotheses of C03_multiplicity_linv are met by a rational instance - global A = [[0,1],[-1/8,3/4]]
+   (poles 1/2, 1/4, modes (1, lam)), the two-setup layout of non-vacuity 2, and a solver output for A_hat that lists the
+   poles in the other order with eigenvectors scaled by 2 and 3; the carrier hypotheses hold at Qc *)
+Example C03_example_multiplicity :
+  (forall k, (k < 2)%nat -> feq (4 * 2) 2 (ec3_obs k) (fmul QcOps 2 (obsv QcOps 2 2 (stack 1 ec3_Cr (ec3_Cm k)) ec3_A) (ec3_T k))) /\
+  (forall k, (k < 2)%nat -> feq 2 2 (fmul QcOps 2 (ec3_T k) (ec3_Ti k)) (fid QcOps)) /\
+  feq 2 2 (fmul QcOps 2 (ec3_Ti 0%nat) (ec3_T 0%nat)) (fid QcOps) /\
+  (forall k, (k < 2)%nat -> feq 2 2 (fmul QcOps (3 * 1) (ec3_L k) (O_ref 3 1 [1;1]%nat ec3_obs k)) (fid QcOps)) /\
+  feq 2 2 (fmul QcOps 2 ec3_A ec3_Phi) (fmul QcOps 2 ec3_Phi (ediag QcOps ec3_lamg)) /\
+  feq 2 2 (fmul QcOps 2 ec3_Phi ec3_Phii) (fid QcOps) /\ feq 2 2 (fmul QcOps 2 ec3_Phii ec3_Phi) (fid QcOps) /\
+  (forall i j, (i < 2)%nat -> (j < 2)%nat -> i <> j -> ec3_lamg i <> ec3_lamg j) /\
+  feq 2 2 (fmul QcOps 2 ec3_Psii ec3_Psi) (fid QcOps) /\
+  feq 2 2 (fmul QcOps ((3 - 1) * 3) ec3_Lp (obs_all QcOps 3 1 [1;1]%nat 2 ec3_obs ec3_L)) (fid QcOps) /\
+  feq 2 2 (fmul QcOps 2 (A_of_linv QcOps 3 1 [1;1]%nat 2 ec3_obs ec3_L ec3_Lp) ec3_Psi) (fmul QcOps 2 ec3_Psi (ediag QcOps ec3_lam)) /\
+  tab 2 ec3_lam = [ec3_lamg 1%nat; ec3_lamg 0%nat].
+Proof. exact ec3_hyps. Qed.
+Example C03_example_carrier :
+  (forall a b:Qc, omul QcOps a b = o0 QcOps -> a = o0 QcOps \/ b = o0 QcOps) /\ o1 QcOps <> o0 QcOps.
+Proof. exact (conj qc_integral qc_one_neq_zero). Qed.
